@@ -359,6 +359,62 @@ func faultPhase(events []world.Event) string {
 	return "none"
 }
 
+// genPhasedFault draws a cluster-side fault so that the phases of the operation (pre-hook, each request verb on manifest
+// resources, readiness wait, post-hook, other waiter calls) are equally likely, and positions within a phase are uniform.
+// Positions come from a fault-free dry run of op on a clone of w, so every drawn fault can fire.
+func genPhasedFault(t *rapid.T, w *world.World, op *world.Op) world.Fault {
+	dry := w.DryCount(op)
+	byPhase := map[string][]world.Fault{}
+	k, wn, waited := 0, 0, false
+	for _, e := range dry.Events {
+		switch e.Layer {
+		case "kube":
+			if e.Key == "/version" {
+				continue
+			}
+			ph := "resource-" + e.Verb
+			if isHookKey(e.Key) {
+				ph = "pre-hook"
+				if waited {
+					ph = "post-hook"
+				}
+			}
+			byPhase[ph] = append(byPhase[ph], world.Fault{Kind: "kube", K: k})
+			k++
+		case "wait":
+			ph := "wait-" + e.Verb
+			switch e.Verb {
+			case "Wait", "WaitWithJobs":
+				ph = "wait"
+			case "WatchUntilReady":
+				ph = "pre-hook"
+				if waited {
+					ph = "post-hook"
+				}
+			}
+			byPhase[ph] = append(byPhase[ph], world.Fault{Kind: "wait", K: wn})
+			wn++
+			if e.Verb == "Wait" || e.Verb == "WaitWithJobs" {
+				waited = true
+			}
+		}
+	}
+	if len(byPhase) == 0 {
+		return world.Fault{}
+	}
+	phases := make([]string, 0, len(byPhase))
+	for ph := range byPhase {
+		phases = append(phases, ph)
+	}
+	sort.Strings(phases)
+	cands := byPhase[rapid.SampledFrom(phases).Draw(t, "faultPhase")]
+	f := cands[rapid.IntRange(0, len(cands)-1).Draw(t, "faultAt")]
+	if f.Kind == "kube" {
+		f.Code = rapid.SampledFrom([]int{500, 500, 403, 409}).Draw(t, "faultCode")
+	}
+	return f
+}
+
 // revTracker remembers, from what the harness itself observed after every step, which spec produced each stored
 // revision's manifest and which revisions were ever seen with status deployed.
 type revTracker struct {
